@@ -1017,7 +1017,21 @@ def class_attr(ex, st, cref: ClassRef, attr, instance):
 def opaque_attr(ex, st, v: Opaque, attr):
     spec = ex.db.opaque_attr(v.kind, attr)
     if spec is None:
-        ex.give_up(st, f"attribute {attr} of opaque {v.kind} (declare it in the contract DB)")
+        # an attribute of a collaborator the contracts do not know: an arbitrary value, the same at every
+        # read of the same object (noted in the evidence)
+        from .contracts import pure_result
+
+        st.notes.append(f"undeclared attribute {v.kind}.{attr} read as an arbitrary value")
+        if v.kind == "Any":
+            # an arbitrary object may lack the attribute: hasattr is an uninterpreted predicate of the object
+            has = ex.uf(f"hasattr_{attr}", z3sort(("u", "Any")), z3.BoolSort())
+            for st1, ok in ex.branch(st, _wrap_bool(has(v.t))):
+                if ok:
+                    yield st1, pure_result(ex, st1, f"{v.kind}.{attr}", "u:Any", [v])
+                else:
+                    yield ex.raise_(st1, "AttributeError")
+            return
+        yield st, pure_result(ex, st, f"{v.kind}.{attr}", "u:Any", [v])
         return
     kind, payload = spec
     if kind == "field":
